@@ -354,27 +354,32 @@ Definition py_slice (v : value) (lo hi step : option value) : res value :=
   | VUndef _ => Err EUndef
   | VDict _ | VObj _ _ _ => Err EKey
   | _ =>
-  match slice_index lo, slice_index hi, slice_index step with
-  | Err e, _, _ => Err e
-  | _, Err e, _ => Err e
-  | _, _, Err e => Err e
-  | Ok a, Ok b, Ok c =>
-      match v with
-      | VUndef _ => Err EUndef
-      | VDict _ | VObj _ _ _ => Err EKey
-      | VStr _ | VMk _ | VList _ | VTuple _ =>
+  match v with
+  | VStr _ | VMk _ | VList _ | VTuple _ =>
+      (* PySlice_Unpack: the step is converted and checked for zero first, then start, then stop *)
+      match slice_index step with
+      | Err e => Err e
+      | Ok c =>
           let st := match c with None => 1%Z | Some z => z end in
           if Z.eqb st 0 then Err EValue else
-          match v with
-          | VStr s => Ok (VStr (slice_list s a b st))
-          | VMk s => Ok (VMk (slice_list s a b st))
-          | VList l => Ok (VList (slice_list l a b st))
-          | VTuple l => Ok (VTuple (slice_list l a b st))
-          | _ => Err EType
+          match slice_index lo with
+          | Err e => Err e
+          | Ok a =>
+              match slice_index hi with
+              | Err e => Err e
+              | Ok b =>
+                  match v with
+                  | VStr s => Ok (VStr (slice_list s a b st))
+                  | VMk s => Ok (VMk (slice_list s a b st))
+                  | VList l => Ok (VList (slice_list l a b st))
+                  | VTuple l => Ok (VTuple (slice_list l a b st))
+                  | _ => Err EType
+                  end
+              end
           end
-      | VFloat _ _ => Err EOpaque
-      | _ => Err EType
       end
+  | VFloat _ _ => Err EOpaque
+  | _ => Err EType          (* not subscriptable, whatever the bounds are *)
   end
   end.
 
@@ -402,6 +407,9 @@ Definition prim_bin (op : binop) (a b : value) : res value :=
   | Mod, Some _ => Err EOpaque           (* printf-style formatting *)
   | _, _ =>
   if is_float a || is_float b then Err EOpaque
+  else if (match op, a with Mul, VMk _ => is_undef b | _, _ => false end) then Err EType
+       (* Markup.__mul__ hands its argument straight to str.__mul__: an undefined count is
+          "cannot be interpreted as an integer", not an UndefinedError *)
   else if is_undef a || is_undef b then Err EUndef
   else
     match num_of a, num_of b with
@@ -437,7 +445,8 @@ Definition prim_bin (op : binop) (a b : value) : res value :=
 
 Definition prim_un (op : unop) (a : value) : res value :=
   match a with
-  | VFloat n d => Ok (match op with Neg => VFloat (- n) d | Pos => VFloat n d end)
+  | VFloat n d => if Z.eqb n 0 then Err EOpaque   (* the sign of a float zero is not representable as n/d *)
+                  else Ok (match op with Neg => VFloat (- n) d | Pos => VFloat n d end)
   | VUndef _ => Err EUndef
   | _ => match num_of a with
          | Some x => Ok (VInt (match op with Neg => (- x)%Z | Pos => x end))
